@@ -70,6 +70,9 @@ type teeClient struct {
 	*file.ReplicaClient
 	arc     *file.ReplicaClient // complete L0 chain (never subject to retention)
 	snapDir string              // every snapshot stream ever uploaded: <n>-<seq>.ltx
+	gateMu  sync.Mutex
+	gate    chan struct{} // scenario queuedsync: the next level-0 upload waits here ...
+	reached chan struct{} // ... after closing this
 }
 
 var teeSeq atomic.Int64
@@ -113,6 +116,17 @@ func (c *teeClient) WriteLTXFile(ctx context.Context, level int, minTXID, maxTXI
 	defer progress.Add(1)
 	switch level {
 	case 0:
+		c.gateMu.Lock()
+		gate, reached := c.gate, c.reached
+		c.gate, c.reached = nil, nil
+		c.gateMu.Unlock()
+		if gate != nil {
+			close(reached)
+			select {
+			case <-gate:
+			case <-time.After(10 * time.Second):
+			}
+		}
 		b, err := io.ReadAll(rd)
 		if err != nil {
 			return nil, err
@@ -1569,6 +1583,110 @@ func scenarioHalfInit(out string) (detail string, err error) {
 	return fmt.Sprintf("passes: init under a cancelled context failed cleanly (%v); the next Sync initialised, replicated to TXID %d, restore = source", e1, pos.TXID), nil
 }
 
+// ---- scenario: an acknowledging replica sync queued behind an upload pass that started before the
+// newest level-0 file existed (seed C12d: queued callers coalesced with the pass that just finished) ----
+
+func scenarioQueuedSync(out string) (detail string, err error) {
+	dir := filepath.Join(out, "queuedsync") + "/"
+	_ = os.RemoveAll(dir)
+	dbPath := filepath.Join(dir, "src", "db.sqlite")
+	e := &episode{dir: dir, dbPath: dbPath, repDir: dir + "rep", arcDir: dir + "arc", snapDir: dir + "snaps", c: cfg{MinCkptPages: 1000}}
+	for _, d := range []string{filepath.Dir(dbPath), e.repDir, e.arcDir, e.snapDir} {
+		_ = os.MkdirAll(d, 0o755)
+	}
+	app, err := openApp(dbPath, 2)
+	if err != nil {
+		return "", err
+	}
+	defer app.Close()
+	if _, err = app.Exec(`CREATE TABLE t(id INTEGER PRIMARY KEY, w INTEGER, v BLOB)`); err != nil {
+		return "", err
+	}
+	db := e.newDB()
+	db.ShutdownSyncTimeout = 0
+	if err = db.Open(); err != nil {
+		return "", err
+	}
+	defer func() { _ = db.Close(context.Background()) }()
+	ctx := context.Background()
+	write := func() error {
+		_, err := app.Exec(`INSERT INTO t(w, v) VALUES (1, randomblob(1500))`)
+		return err
+	}
+	if err = write(); err != nil {
+		return "", err
+	}
+	if err = db.SyncAndWait(ctx); err != nil {
+		return "", err
+	}
+	rep := map[string]any{"how": "harness conc -queuedsync", "history": "write; SyncAndWait; write; Sync; Replica.Sync P (its level-0 upload held back); write; Sync; Replica.Sync W (queued behind P); P released; W returns nil: every level-0 file that existed before W was called must be on the replica"}
+	tc := db.Replica.Client.(*teeClient)
+	rounds, missed := 0, 0
+	for round := 0; round < 4; round++ {
+		if err = write(); err != nil {
+			return "", err
+		}
+		if err = db.Sync(ctx); err != nil {
+			return "", err
+		}
+		gate, reached := make(chan struct{}), make(chan struct{})
+		tc.gateMu.Lock()
+		tc.gate, tc.reached = gate, reached
+		tc.gateMu.Unlock()
+		pdone := make(chan error, 1)
+		go func() { pdone <- db.Replica.Sync(ctx) }()
+		select {
+		case <-reached:
+		case <-time.After(5 * time.Second):
+			close(gate)
+			<-pdone
+			continue // the pass found nothing to upload: not the interleaving
+		}
+		if err = write(); err != nil {
+			close(gate)
+			return "", err
+		}
+		if err = db.Sync(ctx); err != nil {
+			close(gate)
+			return "", err
+		}
+		before, _ := db.Pos()
+		wdone := make(chan error, 1)
+		go func() { wdone <- db.Replica.Sync(ctx) }()
+		time.Sleep(time.Duration(60+40*round) * time.Millisecond) // W is queued on the replica's sync lock by now
+		close(gate)
+		perr, werr := <-pdone, <-wdone
+		rounds++
+		if werr != nil {
+			continue
+		}
+		var max ltx.TXID
+		for _, lv := range []int{0, 1, 2, litestream.SnapshotLevel} {
+			itr, lerr := tc.ReplicaClient.LTXFiles(ctx, lv, 0, false)
+			if lerr != nil {
+				continue
+			}
+			for itr.Next() {
+				if m := itr.Item().MaxTXID; m > max {
+					max = m
+				}
+			}
+			_ = itr.Close()
+		}
+		if max < before.TXID {
+			missed++
+			violate("C12/acknowledged-sync-did-not-upload",
+				fmt.Sprintf("round %d: Replica.Sync returned nil (the pass it queued behind returned %v) while the replica ends at TXID %d and the database was at TXID %d before the call", round, perr, uint64(max), uint64(before.TXID)), rep)
+			break
+		}
+	}
+	if missed > 0 {
+		return "reproduced", nil
+	}
+	_ = os.RemoveAll(dir)
+	return fmt.Sprintf("passes: %d rounds, every acknowledged queued sync uploaded what existed before it was called", rounds), nil
+}
+
 // ---- scenario: every operation once, sequentially (its lock trace is written out first) ----------
 
 func scenarioBasic(out string) (detail string, err error) {
@@ -1665,6 +1783,7 @@ func cmdConc(args []string) error {
 	ckptsnap := fl.Int("ckptsnap", 0, "rounds of the FULL/RESTART-checkpoint-then-snapshot scenario (0 = skip)")
 	ckptfail := fl.Bool("ckptfail", true, "deterministic: checkpoint fails after the WAL restarted, then Snapshot")
 	halfinit := fl.Bool("halfinit", true, "also run the init-under-cancelled-context scenario")
+	queuedsync := fl.Bool("queuedsync", true, "also run the queued-acknowledging-sync scenario")
 	snapdup := fl.Int("snapdup", 6, "rounds of the concurrent-snapshot scenario (0 = skip)")
 	budget := fl.Duration("budget", 0, "stop starting new episodes after this much wall time (0 = none)")
 	wd := fl.Duration("watchdog", 60*time.Second, "per-call timeout")
@@ -1685,7 +1804,7 @@ func cmdConc(args []string) error {
 		return err
 	}
 	var results []epResult
-	var f9detail, sddetail, hidetail, rsdetail, rtdetail, bsdetail, csdetail, cfdetail string
+	var f9detail, sddetail, hidetail, rsdetail, rtdetail, bsdetail, csdetail, cfdetail, qsdetail string
 	finish := func() {
 		_ = cw.Close()
 		st := cw.Stats()
@@ -1698,7 +1817,7 @@ func cmdConc(args []string) error {
 				tot[k] += v
 			}
 		}
-		st.Extra = map[string]any{"episodes": results, "ops_total": tot, "f9": f9detail, "snapdup": sddetail, "halfinit": hidetail, "regsched": rsdetail, "regstress": rtdetail, "basic": bsdetail, "ckptsnap": csdetail, "ckptfail": cfdetail, "trace_hook": traceEnabled, "trace_events_total": traceTotal}
+		st.Extra = map[string]any{"episodes": results, "ops_total": tot, "f9": f9detail, "snapdup": sddetail, "halfinit": hidetail, "regsched": rsdetail, "regstress": rtdetail, "basic": bsdetail, "ckptsnap": csdetail, "ckptfail": cfdetail, "queuedsync": qsdetail, "trace_hook": traceEnabled, "trace_events_total": traceTotal}
 		_ = WriteJSON(filepath.Join(*out, "stats.json"), st)
 	}
 	wdCW = cw
@@ -1772,6 +1891,16 @@ func cmdConc(args []string) error {
 			hidetail = "scenario could not be set up: " + err.Error()
 		} else {
 			hidetail = d
+		}
+	}
+	if *queuedsync && *only < 0 {
+		traceReset()
+		d, err := scenarioQueuedSync(*out)
+		emitTrace(cw, "queuedsync")
+		if err != nil {
+			qsdetail = "scenario could not be set up: " + err.Error()
+		} else {
+			qsdetail = d
 		}
 	}
 	if *snapdup > 0 && *only < 0 {
